@@ -4,3 +4,4 @@ import Props.C09
 import Props.C10
 import Props.C05
 import Props.C06
+import Props.C21
